@@ -237,4 +237,20 @@ def rule_e(ctx):
     return r
 
 
-RULES = [rule_a, rule_b, rule_c, rule_d, rule_e]
+
+def rule_f(ctx):
+    r = RuleResult("C14-f", "zip() is as long as its shortest argument: the length is the minimum over all argument lists")
+    prog = ctx.prog()
+    b = prog.one("builtin::functions::list::zip")
+    mins = [c for c in b.calls() if an.tail2(c.callee) in ("Iterator::min", "Ord::min", "cmp::min", "Iterator::min_by_key")]
+    lens = [c for c in b.calls() if an.tail2(c.callee) == "Iterator::map" and len(c.args) == 2 and "len" in repr(an.trace_operand(b, c.args[1]))]
+    key = "zip|length-is-minimum"
+    if mins:
+        r.ok(key, via=an.tail2(mins[0].callee))
+    else:
+        r.violate(key, "zip() no longer takes the minimum of the argument lengths: with a shorter later list the result is too long and its sub-lists are ragged "
+                  "(`zip(a b c, 1 2)` must be `a 1, b 2`)", b.loc())
+    return r
+
+
+RULES = [rule_a, rule_b, rule_c, rule_d, rule_e, rule_f]
